@@ -7,5 +7,8 @@ export CARGO_NET_OFFLINE=true
 cd "$ROOT/harness"
 cargo build --release --offline
 cd "$ROOT"
-[ -x "$ROOT/tools/mk_sysroot32.sh" ] && "$ROOT/tools/mk_sysroot32.sh"
+# the sysroot build was once seen to fail transiently while other cargo jobs ran: try up to three times
+if [ -x "$ROOT/tools/mk_sysroot32.sh" ]; then
+  "$ROOT/tools/mk_sysroot32.sh" || { sleep 5; "$ROOT/tools/mk_sysroot32.sh"; } || { sleep 15; "$ROOT/tools/mk_sysroot32.sh"; }
+fi
 echo "setup done"
